@@ -53,6 +53,11 @@ def find_top_level_manifest(path='.', allow_xdev=True, allow_compressed=False):
 
         for m_name in manifest_filenames:
             m_path = os.path.join(cur_path, m_name)
+            # a special file is no Manifest (and opening a named pipe
+            # would block forever)
+            if (os.path.exists(m_path) and not os.path.isfile(m_path)
+                    and not os.path.isdir(m_path)):
+                continue
             try:
                 # note: this is safe for allow_compressed=False
                 # since it detects compression by filename suffix
